@@ -3,6 +3,7 @@
  * the fill itself is a byte loop bounded by PSF_MEMSET_MAX (R3: CBMC's
  * symbolic-length memset on a symbolic-size object does not terminate).
  * The real psf_memset (chunking loop around memset) is checked in C03 L0. */
+#if defined (__CPROVER__) || defined (VERIF_CBMC)	/* native replay uses the real function */
 #include "sfconfig.h"
 #include "sndfile.h"
 #include "common.h"
@@ -35,3 +36,4 @@ psf_memset (void *s, int c, sf_count_t len)
 	return s ;
 #endif
 }
+#endif
